@@ -190,8 +190,14 @@ def wf_pair(T, s, t):
 
 
 # --------------------------------------------------------------------------- naming / flatten
+OVERLAP = ['q', 'qr', 'r', 'rs', 's', 'st', 't', 'tu', 'u', 'uv', 'v', 'vw']
+
+
 def name_for(i, scheme):
-    """fixed-width names with gaps of 10 so order-preserving fresh names exist (C17)"""
+    """fixed-width names with gaps of 10 so order-preserving fresh names exist (C17); scheme 'overlap': short
+    names that are made of each other's characters (a name is a name, not a bag of letters), in ascending order"""
+    if scheme == 'overlap':
+        return OVERLAP[i]
     return 'n%03d' % ((i + 1) * 10 if scheme == 'asc' else 990 - i * 10)
 
 
